@@ -190,7 +190,7 @@ def run_property(prop, tier, out, timeout_q=300, timeout_t=2400, jobs=16):
         out.inconclusive.append(f"K: cargo kani produced no result file (rc={rc}); see {log}")
         return
     results = {r["harness_id"].split("::")[-1]: r for r in data.get("verification_results", {}).get("results", [])}
-    stats = {c["harness_id"].split("::")[-1]: c.get("cbmc_stats", {}) for c in data.get("cbmc", [])}
+    stats = {c["harness_id"].split("::")[-1]: (c.get("cbmc_stats") or {}) for c in data.get("cbmc", [])}
     funcs = set()
     for name in sel:
         r = results.get(name)
